@@ -431,6 +431,46 @@ impl Part for LengthFn {
     }
 }
 
+
+// ------------------------------------------------------------------ hand-built IS_VER around any finite version
+/// (bit pattern of the f32 number, letter, revision)
+pub struct BuiltVer;
+impl Part for BuiltVer {
+    type Case = (u32, u8, Option<u64>, bool);
+    fn name(&self) -> &'static str {
+        "hand-built-version-packets"
+    }
+    fn check(&self, c: &(u32, u8, Option<u64>, bool), ev: &mut Local) -> Result<(), Fail> {
+        let major = f32::from_bits(c.0);
+        if !major.is_finite() || major < 0.0 {
+            ev.class("not a finite non-negative number: skipped");
+            return Ok(());
+        }
+        let mode = if c.3 { Mode::Compressed } else { Mode::Uncompressed };
+        let mut v = insim::insim::Ver::default();
+        v.version = insim_core::game_version::GameVersion { major, minor: (b'A' + c.1 % 26) as char, patch: c.2.map(|p| p as usize) };
+        v.product = "S3".into();
+        v.insimver = 9;
+        let shown = format!("{}", v.version);
+        let p = Packet::Ver(v);
+        match judge_encode(&p, &mode, Origin::UserBuilt)? {
+            Some(_) => ev.class(if shown.len() > 8 { "emitted: the printed version is cut to 8 bytes" } else { "emitted" }),
+            None => ev.class("refused"),
+        }
+        ev.nontrivial(c);
+        if ev.wants_sample() && shown.len() > 8 {
+            ev.sample(|| json!({"version": shown, "mode": mode_name(&mode)}));
+        }
+        Ok(())
+    }
+    fn to_json(&self, c: &(u32, u8, Option<u64>, bool)) -> Value {
+        json!({"major_bits": c.0, "major": f32::from_bits(c.0).to_string(), "letter": c.1, "revision": c.2, "compressed": c.3})
+    }
+    fn from_json(&self, v: &Value) -> Option<(u32, u8, Option<u64>, bool)> {
+        Some((v.get("major_bits")?.as_u64()? as u32, v.get("letter")?.as_u64()? as u8, v.get("revision").and_then(|r| r.as_u64()), v.get("compressed")?.as_bool()?))
+    }
+}
+
 // ------------------------------------------------------------------ sequences on one codec instance
 /// A connection encodes all its packets with one `Codec`. Whatever happened before (refused packets, long packets, short
 /// ones), each successful result must be the single well-formed frame a fresh codec produces for that packet.
@@ -592,7 +632,7 @@ pub fn ver_frame_strategy() -> impl Strategy<Value = MutCase> {
 }
 
 pub fn parts() -> Vec<Box<dyn DynPart>> {
-    vec![Box::new(Counts), Box::new(TextLengths), Box::new(FromImages), Box::new(AcceptedFrames), Box::new(MsoTextStart), Box::new(OneCodec("c03")), Box::new(LengthFn)]
+    vec![Box::new(Counts), Box::new(TextLengths), Box::new(FromImages), Box::new(AcceptedFrames), Box::new(MsoTextStart), Box::new(OneCodec("c03")), Box::new(LengthFn), Box::new(BuiltVer)]
 }
 
 pub fn run(run: &mut Run) {
@@ -673,6 +713,20 @@ pub fn run(run: &mut Run) {
     // (6) sequences of packets (refused ones among them) on one codec instance, as a connection uses it
     let n = run.budget(40_000, 2_000_000);
     run.prop(&OneCodec("c03"), seq_strategy(), n);
+    // (6b) hand-built IS_VER around any finite version: numbers with 1..9 integer digits with and without a fraction (the printed
+    // form is cut to 8 bytes wherever that falls), tiny and huge numbers, revisions of any size
+    let major = prop_oneof![
+        3 => (0u32..8, 0u32..1000, 0u32..4).prop_map(|(digits, frac, k)| {
+            let int = 10u64.pow(digits) as f32 * [1.0f32, 1.2345678, 4.194303, 9.9999][k as usize];
+            (int.floor() + frac as f32 / 1000.0).to_bits()
+        }),
+        2 => (0u32..100, 0u32..100).prop_map(|(a, b)| (a as f32 + b as f32 / 100.0).to_bits()),
+        2 => any::<u32>(),
+        1 => prop::sample::select(vec![0f32.to_bits(), 0.7f32.to_bits(), 4194303.5f32.to_bits(), 8388607.5f32.to_bits(), 1234567.5f32.to_bits(), 16777216f32.to_bits(), 1e-5f32.to_bits(), 3.4e38f32.to_bits()]),
+    ];
+    let rev = prop_oneof![2 => Just(None), 3 => (0u64..300).prop_map(Some), 1 => any::<u64>().prop_map(Some)];
+    let n = run.budget(60_000, 3_000_000);
+    run.prop(&BuiltVer, (major, any::<u8>(), rev, any::<bool>()), n);
     // (7) Mode::encode_length directly: every length 0..=70 000 and lengths around every integer width, both modes (complete)
     let mut lens: Vec<(bool, u64)> = vec![];
     for compressed in [false, true] {
